@@ -27,7 +27,8 @@ type Event struct {
 }
 
 type State struct {
-	heaps map[string]Term
+	heaps  map[string]Term
+	defers []*deferRec
 }
 
 func (s *State) clone() *State {
@@ -35,6 +36,7 @@ func (s *State) clone() *State {
 	for k, v := range s.heaps {
 		n.heaps[k] = v
 	}
+	n.defers = append([]*deferRec(nil), s.defers...)
 	return n
 }
 
@@ -118,6 +120,20 @@ type VC struct {
 	pendingWF   map[string]Term
 	lastEv      *Event
 	havocked    map[string][]string // heap name -> havoc versions in creation order
+	// function literals, defer, panic paths (inline.go, panicpath.go)
+	inline        *inlineFrame
+	inlineDepth   int
+	deferDepth    int
+	inRunDefers   bool
+	baseReach     Term
+	startBlock    *ssa.BasicBlock
+	reachOverride Term
+	panicMode     bool
+	panicExits    []panicExit
+	callGhosts    map[string]*callGhost
+	heapProbe     map[string]bool
+	specHeaps     map[*types.Func][]string
+	specProbing   map[*types.Func]bool
 }
 
 type recvAxiom struct{}
@@ -190,7 +206,7 @@ func (vc *VC) addAssume(guard, cond Term) {
 }
 
 func (vc *VC) oblige(class, detail string, guard, cond Term, pos token.Pos, construct string) {
-	if cond == "true" {
+	if cond == "true" && detail != "propagates" {
 		return
 	}
 	if strings.HasPrefix(class, "safe:") && vc.nosafety {
@@ -221,6 +237,9 @@ func (vc *VC) oblige(class, detail string, guard, cond Term, pos token.Pos, cons
 // heap state
 
 func (vc *VC) heapGet(s *State, name, sort string) Term {
+	if vc.heapProbe != nil {
+		vc.heapProbe[name] = true
+	}
 	if t, ok := s.heaps[name]; ok {
 		return t
 	}
